@@ -38,7 +38,7 @@ STUB_SQUEEZE(ascon_xofa_squeeze, ascon_xofa_state_t, SPEC_XOFA, 14u, 8, 8)
 
 static void R_absorb(spec_sponge *h, const unsigned char *buf, size_t len)
 {
-    if ((const void *)buf != stub_long_buf && len <= VERIF_CONTENT_MAX) *h = spec_sponge_absorb_v(&PP, *h, buf, len);
+    if ((stub_long_buf == 0 || (const void *)buf != stub_long_buf) && len <= VERIF_CONTENT_MAX) *h = spec_sponge_absorb_v(&PP, *h, buf, len);
     else { h->s = spec_l1(TAGA, h->s, buf, len, h->count, h->mode != 0); h->count = (unsigned)(((h->mode ? 0 : h->count) + len) % 8); h->mode = 0; }
 }
 /* cXOF initial state: p^12(IV(L) || N padded), then the customisation string C (absorb, pad, permute, separator) */
